@@ -25,6 +25,18 @@ def run(ctx):
     logp = os.path.join(bdir, name + ".run.log")
     cmd = [binary, corpus, "-max_total_time=%d" % budget, "-seed=%d" % (seed if seed else 1), "-artifact_prefix=" + arts + "/",
            "-timeout=60", "-rss_limit_mb=4096", "-max_len=4096", "-print_final_stats=1", "-use_value_profile=1", "-reload=0"]
+    # committed regression inputs (earlier findings, now fixed) run first
+    viol, notes = [], []
+    regdir = os.path.join(ctx["verif"], "replays", ctx["pid"], name)
+    n_reg = 0
+    if os.path.isdir(regdir):
+        for a in sorted(os.listdir(regdir)):
+            if not a.startswith("reg-"):
+                continue
+            n_reg += 1
+            rr = subprocess.run([binary, os.path.join(regdir, a)], stdout=subprocess.PIPE, stderr=subprocess.STDOUT, env=env, cwd=bdir)
+            if rr.returncode != 0:
+                viol.append((os.path.join(regdir, a), "regression input fails again: " + rr.stdout.decode(errors="replace")[-1200:]))
     t0 = time.time()
     with open(logp, "w") as lf:
         try:
@@ -44,7 +56,6 @@ def run(ctx):
         pass
     n_corpus = len(os.listdir(corpus))
     n_seeds = len(glob.glob(os.path.join(corpus, "seed_*.bin")))
-    viol, notes = [], []
     keep = os.path.join(ctx["verif"], "replays", ctx["pid"], name)
     for a in sorted(os.listdir(arts)):
         src = os.path.join(arts, a)
@@ -72,7 +83,7 @@ def run(ctx):
                 "oracle as the structured engine: return or C++ exception, no ASan/UBSan report, no BOOST_ASSERT, no unit above 60 s; non-trivial = corpus units beyond the seeds (each reached new coverage)"
                 % (FMT[t.get("fmt", 0)], n_seeds),
         "samples": [],
-        "classes": dict({"final_cov_edges": int(cov[-1][0]) if cov else 0, "final_features": int(cov[-1][1]) if cov else 0, "corpus_units": n_corpus, "budget_s": budget}, **{k: v for k, v in st.items() if k != "execs"}),
+        "classes": dict({"final_cov_edges": int(cov[-1][0]) if cov else 0, "final_features": int(cov[-1][1]) if cov else 0, "corpus_units": n_corpus, "budget_s": budget, "regression_inputs_replayed": n_reg}, **{k: v for k, v in st.items() if k != "execs"}),
         "notes": notes,
         "exhaustive": False,
         "failures": [],
